@@ -40,6 +40,10 @@ CHECKS = {
   "reference-model monitor: every query method compared with a direct re-computation from its definition over seeded font and metrics values",
   "For generated type1.Font and afm.Metrics values (with and without .notdef, empty and closepath-only glyphs, boxes that are legitimately zero, encodings absent / partial / with repeated names / naming missing glyphs, axis-aligned font matrices with negative and non-uniform scales and translations) NumGlyphs, GlyphList (each glyph once, .notdef first, encoded glyphs in code order under a greedy feasibility check, the rest in byte-wise name order, length = count), Glyph.BBox, GlyphBBoxPDF, FontBBox, FontBBoxPDF, GlyphWidthPDF and WidthsMapPDF are evaluated for every present and several absent names and compared with an independent re-computation.",
   "Matrix products are compared with 1e-9 relative tolerance. A box equal to [0 0 0 0] counts as empty, as the property defines."),
+ "C07": ("exploration", "DESIGN.md 11/C07",
+  "reference-model monitor: model CMap -> independent writer of the standard file form -> ReadCMap, table-by-table permutation and sortedness check; single-fault variants must be rejected",
+  "Model CMaps with any number of blocks of the seven kinds in random order (repeated kinds adjacent and interleaved, 0-100 entries, code lengths 1-4 mixed, destinations of every allowed type, optional usecmap and WMode, several CMaps per file) are written by an independent writer with layout noise; ReadCMap's dictionary must carry the file's name, system info, type and writing mode, and each table of its *CMapInfo must be a permutation of the file's entries that is sorted by source code (code-space ranges by length then code). Every single-fault variant (101 declared entries, declared count one larger than supplied, wrong destination type per kind, bounds of unequal length, reversed range, missing begincmap) must return an error.",
+  "Which of several CMaps in a file is returned is C17's clause; C07 compares the returned one against the model of that name."),
 }
 
 NOT_CLAIMED = {}
